@@ -616,4 +616,13 @@ def do_replay(ctx, plan, path):
 
 
 if __name__ == "__main__":
-    main()
+    try:
+        main()
+    except SystemExit:
+        raise
+    except BaseException:
+        # a defect of the machinery itself is never a verdict about the code under test
+        import traceback
+        traceback.print_exc()
+        print("INFRA the checking machinery itself failed (see the traceback above)")
+        sys.exit(2)
